@@ -71,6 +71,9 @@ func init() {
 		"fmt.Sprintln":                         iFmtSprintln,
 		"fmt.Fprintf":                          iFmtFprintf,
 		"errors.Is":                            nil,
+		"sort.Slice":                           iSortSlice,
+		"sort.SliceStable":                     iSortSlice,
+		"sort.Ints":                            iSortInts,
 		"(*sync/atomic.Value).Load":            iAtomicValueLoad,
 		"(*sync/atomic.Value).Store":           iAtomicValueStore,
 		"(*sync/atomic.Value).Swap":            iAtomicValueSwap,
@@ -498,3 +501,58 @@ func (in *Interp) logAtomic(store bool, p PtrV) {
 	}
 	in.events = append(in.events, Event{Thread: in.curThread, Kind: "ald", Obj: p.obj.id, Path: pathKey(p.path), Seq: in.lastStore[key]})
 }
+
+// sort.Slice / SliceStable: stable insertion sort calling the less closure through the interpreter.
+func iSortSlice(in *Interp, fn *ssa.Function, a []Value) Value {
+	iv := a[0].(IfaceV)
+	s, ok := iv.v.(SliceV)
+	if !ok {
+		in.unsupported("sort.Slice on non-slice")
+	}
+	less := a[1].(FuncV)
+	if s.len < 2 {
+		return nil
+	}
+	// less(i, j) refers to the slice's current contents: sort in place with adjacent swaps
+	for i := 1; i < s.len; i++ {
+		for j := i; j > 0; j-- {
+			r := in.callFn(less.fn, []Value{in.intTerm(j), in.intTerm(j - 1)}, less.env).(*Term)
+			if !in.branch(r) {
+				break
+			}
+			old := s.arr.v.(*ArrayV)
+			ne := make([]Value, len(old.e))
+			copy(ne, old.e)
+			ne[s.off+j], ne[s.off+j-1] = ne[s.off+j-1], ne[s.off+j]
+			s.arr.v = &ArrayV{e: ne}
+			in.logObj("wr", s.arr)
+		}
+	}
+	return nil
+}
+
+func iSortInts(in *Interp, fn *ssa.Function, a []Value) Value {
+	s := a[0].(SliceV)
+	if s.len < 2 {
+		return nil
+	}
+	es := append([]Value(nil), in.sliceElems(s)...)
+	for i := 1; i < len(es); i++ {
+		for j := i; j > 0; j-- {
+			if in.branch(in.tt.Bin(OpSlt, es[j].(*Term), es[j-1].(*Term))) {
+				es[j], es[j-1] = es[j-1], es[j]
+			} else {
+				break
+			}
+		}
+	}
+	old := s.arr.v.(*ArrayV)
+	ne := make([]Value, len(old.e))
+	copy(ne, old.e)
+	copy(ne[s.off:], es)
+	s.arr.v = &ArrayV{e: ne}
+	return nil
+}
+
+// too large to keep in the per-path snapshot: initialised lazily on first use instead
+var heavyInitPkgs = map[string]bool{"unicode": true, "strconv": true, "html": true, "math": true}
